@@ -11,7 +11,7 @@ quantity, not of one entry that may be the result of cancellation); `m = 0` prin
   init    centroid sigma lambda|- mu|- scheme cs|- damps|- ccum|- ccov1|- ccovmu|- cmatrix|- w V indx
   update  <state> keys pop w V indx          (code form + eigen post-processing)
   spec    <state> keys pop                   (published form)
-  generate dim centroid sigma BD arz
+  generate dim lambda centroid sigma BD tape     (answers `bad-tape` when the tape is shorter than lambda·dim)
   sort    keys
   <state> = dim mu weights mueff cc cs ccov1 ccovmu damps chiN count centroid sigma pc ps C B diagD
 -/
@@ -151,16 +151,18 @@ def handle : List String → String
       pure (s, p)) with
     | some (s, p) => showCore (updateSpec s (selectBest s.par.mu p))
     | none => "bad-op"
-  | ["generate", dim, centroid, sigma, BD, arz] =>
+  | ["generate", dim, lam, centroid, sigma, BD, tape] =>
     match (do
       let d ← parseNat dim
-      let c ← vec centroid; let sg ← parseFloat sigma; let bd ← mat BD; let z ← mat arz
-      if !(isVec d c && isMat d d bd && z.all (fun r => r.length == d)) then none else
-      pure (d, c, sg, bd, z)) with
-    | some (d, c, sg, bd, z) =>
-      let s : State Float := { dim := d, centroid := c, sigma := sg, pc := [], ps := [], chiN := 0.0, C := [], diagD := [], B := [], BD := bd, cond := 0.0, lambda_ := z.length, updateCount := 0, par := { mu := 0, weights := [], mueff := 0.0, cc := 0.0, cs := 0.0, ccov1 := 0.0, ccovmu := 0.0, damps := 0.0 } }
-      let pts := generate s z (fun x => x)
-      toString pts.length ++ " " ++ showMatN pts
+      let l ← parseNat lam
+      let c ← vec centroid; let sg ← parseFloat sigma; let bd ← mat BD; let z ← vec tape
+      if !(isVec d c && isMat d d bd) then none else
+      pure (d, l, c, sg, bd, z)) with
+    | some (d, l, c, sg, bd, z) =>
+      let s : State Float := { dim := d, centroid := c, sigma := sg, pc := [], ps := [], chiN := 0.0, C := [], diagD := [], B := [], BD := bd, cond := 0.0, lambda_ := l, updateCount := 0, par := { mu := 0, weights := [], mueff := 0.0, cc := 0.0, cs := 0.0, ccov1 := 0.0, ccovmu := 0.0, damps := 0.0 } }
+      match generate s z (fun x => x) with
+      | some (pts, rest) => toString pts.length ++ " " ++ toString rest.length ++ " " ++ showMatN pts
+      | none => "bad-tape"
     | none => "bad-op"
   | ["sort", keys] =>
     match mat keys with
